@@ -301,6 +301,9 @@ def x_history(ctx, case):
         if outcome is not None and not m["ties"]:
             if m["kind"] == "timeout":
                 ctx.check(outcome == "addError", "timeout-is-error", detail)
+                # "an interrupt ALSO asks the result to stop": a test that merely timed out does not end the run
+                ctx.check("stop" not in names, "timeout-is-error",
+                          lambda: {"a timeout asked the result to stop": True, **detail()})
             elif m["kind"] == "interrupted":
                 ctx.check(outcome == "addError" and "stop" in names, "interrupt-is-error-and-asks-to-stop", detail)
             else:
@@ -528,6 +531,16 @@ def run(ctx):
                         ctx.execute("history", {"progs": [p]})
     ctx.note_space("slow synchronous work straddling timeout and firing instant / preceding an interrupt: 2 runners x "
                    "2 endings x 4 (delay, timeout) pairs x (3 x 4 stages + 4 interrupts)", n)
+    # an explicit timeout of 0: everything synchronous still passes, anything that takes time does not
+    n = 0
+    for runner in ("plain", "broken"):
+        for slot in ("setUp", "test", "tearDown", "cleanup0"):
+            for b in ({"end": "fire_at", "arg": 0.001}, {"end": "fail_at", "arg": 0.001}, {"end": "fired"}, {"end": "ret"},
+                      {"end": "fire_at", "arg": 0.5}):
+                if ctx.mine():
+                    n += 1
+                    ctx.execute("history", {"progs": [make([(slot, b)], 0.0, None, runner)]})
+    ctx.note_space("timeout 0: 2 runners x 4 stages x 5 behaviours", n)
     # cleanups registered late: when a stage completes, i.e. in the callback of the Deferred it returned
     n = 0
     for prog in late_cleanup_programs():
